@@ -9,17 +9,18 @@
 
    [expr_grammar] is the grammar of the property: names, attributes, calls with positional and keyword arguments,
    subscripts, unary / binary / boolean / comparison operators, conditionals, tuples, lists, dictionaries with arbitrary
-   string keys, nested lambdas, and every other node class ([Other]).  Its three restrictions:
+   string keys, nested and immediately called lambdas, and every other node class ([Other]).  Its three restrictions:
      - a call of [abs]/[len] does not pass their parameter by keyword without a positional argument;
      - keyword names and values of a call come in equal numbers (what Python's parser produces);
      - a call whose callee is a subscript of an attribute, [v.a[s](...)], has an untyped [v] (a name, attribute or
        subscript chain from the lambda parameter).  Residual of F21, reported: [{'a': e.x}.a[0](1)] and [(1).x[0](2)]
        still raise AttributeError - the call is taken for a parameterized property on a typed object, and that
        behaviour is pinned for user classes by test_index_callback_bad_prop.
-     - an immediately called lambda [(lambda x, ...: body)(a, ...)] that binds each parameter to one positional
-       argument is outside the grammar: since F45 the follower follows its body (the parameters typed by the arguments),
-       so the statement would need the body to be in the grammar under another environment; such calls are covered by
-       the correspondence only (they are in the corpus and the generated cases).  Any other call of a lambda is in.
+   Immediately called lambdas [(lambda x, ...: body)(a, ...)] are in the grammar.  When each parameter is bound to one
+   positional argument the follower follows the body (F45), the parameters typed by the arguments; the grammar then
+   reads the body with the parameters hiding the outer names, and - third restriction, inside such a body - a
+   parameter does not count as an untyped [v] of [v.a[s](...)] (it may be bound to a dictionary or tuple literal).
+   Any other call of a lambda leaves the lambda alone (Example [called_lambdas]).
    [bool_shape]: comparisons, and/or and [not] (F43: [not x] is a boolean whatever [x] is).
    Builtin classes (str, int, ...) are not in a class table: their methods called on constants are outside the model. *)
 From FA.Base Require Import PyAst Value.
@@ -106,6 +107,17 @@ Example call_of_subscripted_attribute :
   let s := mcall (Attr e_ "jets") "Select" [Lambda ["value"] (UnaryOp UNot (Attr (Name "value") "value"))] in
   expr_grammar W0 [("e", TAny)] q = true /\ follow W0 [("e", TAny)] q = Ok (q, TAny, []) /\
   expr_grammar W0 [("e", TAny)] s = true /\ follow W0 [("e", TAny)] s = Ok (s, TAny, []).
+Proof. repeat split; vm_compute; reflexivity. Qed.
+
+(* (lambda x: x.pt > 1)(e.jet)  binds its parameter: the body is followed; (lambda x: x)(e, 1) does not: left alone;
+   a refusal inside the body of a called lambda is the designed one *)
+Example called_lambdas :
+  let q := Call (Lambda ["x"] (Compare (Attr (Name "x") "pt") [CGt] [Const (CInt 1)])) [Attr e_ "jet"] [] [] in
+  let s := Call (Lambda ["x"] (Name "x")) [e_; Const (CInt 1)] [] [] in
+  let r := Call (Lambda ["x"] (IfExp (Name "x") (Const (CInt 1)) (Const (CStr "a")))) [e_] [] [] in
+  expr_grammar W0 [("e", TAny)] q = true /\ follow W0 [("e", TAny)] q = Ok (q, TBool, []) /\
+  expr_grammar W0 [("e", TAny)] s = true /\ follow W0 [("e", TAny)] s = Ok (s, TAny, []) /\
+  expr_grammar W0 [("e", TAny)] r = true /\ follow W0 [("e", TAny)] r = Refuse RIfExp.
 Proof. repeat split; vm_compute; reflexivity. Qed.
 
 (* designed refusals really occur, each with its site *)
